@@ -26,6 +26,11 @@ func propC06(c *Ctx) propInfo {
 	c.writersDoNotMutateInput()
 	c.cellCapacity()
 	c.bigIntChunks()
+	c.oneBitSigned()
+	c.fiftHex()
+	c.hexDigits()
+	c.log2Smear()
+	c.floor("E7.fifthex", 4)
 	c.floor("E7.bigint-chunks", 4)
 	c.floor("E11.cell-capacity", 3)
 	c.errflow(excC06E2, "boc")
